@@ -258,7 +258,7 @@ def spec_pre_reset(a, res_bid):
     cur = a.cur_vinfo
     tag_given = b_not(v_is_none(a.tag))
     tag_changes = b_and(tag_given, v_ne(a.tag, field(cur, "tag")))
-    f = dict(cur.fields)
+    f = dict(cur.fields) if isinstance(cur, SRec) else dict(cur._asdict())
     f["major"] = v_ite(v_truthy(a.major), v_arith("+", field(cur, "major"), 1), field(cur, "major"))
     f["minor"] = v_ite(v_truthy(a.minor), v_arith("+", field(cur, "minor"), 1), field(cur, "minor"))
     f["patch"] = v_ite(v_truthy(a.patch), v_arith("+", field(cur, "patch"), 1), field(cur, "patch"))
@@ -478,10 +478,17 @@ def _incr_clause(kind, idx=None):
         if kind == "from_date":
             if not today:
                 return b_implies(notnone, v_truthy(a.pin_date))
+            # the calendar comes from one cal_info call whose argument is the requested date (maybe_date, else TODAY):
+            # not the parameterless "today", not a second look-up
+            arg = getattr(today[-1][3], "date", None)
+            if len(today) != 1 or arg is None:
+                return b_implies(notnone, v_truthy(a.pin_date))
+            # a concrete argument (version.TODAY) is right only when no date was requested
+            arg_ok = True if V.contains_sym(arg) else v_is_none(a.maybe_date)
             td = today[-1][2]
             return b_implies(
                 b_and(notnone, b_not(v_truthy(a.pin_date))),
-                b_ite(spec_cal_gt(old, td), same_fields(R, old, CAL_FIELDS), same_fields(R, td, CAL_FIELDS)),
+                b_and(arg_ok, b_ite(spec_cal_gt(old, td), same_fields(R, old, CAL_FIELDS), same_fields(R, td, CAL_FIELDS))),
             )
         if kind == "numeric":
             v = _incr_numeric_view(a, old, R)
